@@ -3,8 +3,9 @@ from __future__ import annotations
 
 import itertools
 
+import sys
+
 from ..core import Prop, Violation, import_repo, show_bool
-from ..util import call_guarded
 
 ERR_TAGS = ["extUnknownModule", "extUnknownPort", "inputType", "inputIntegrity", "multipleSources", "noHandler",
             "missingSource", "portsMismatch", "outputType", "outputIntegrity", "missingOutput", "wireType",
@@ -13,6 +14,13 @@ ERR_TAGS = ["extUnknownModule", "extUnknownPort", "inputType", "inputIntegrity",
 
 class Runaway(Exception):
     """raised by a scripted handler that is invoked absurdly often (a scheduler that loops)"""
+
+
+class StepBudget(BaseException):
+    """raised by the line-counting watchdog when execute() runs absurdly long (a scheduler that spins)"""
+
+
+STEP_BUDGET = 200_000   # source lines of wiring_runtime.py per execute(); honest runs of 7 modules need < 2 000
 
 
 class C16(Prop):
@@ -270,6 +278,33 @@ class C16(Prop):
     def _exc(self, e):
         return f"raise:{type(e).__name__}"
 
+    def _bounded(self, fn):
+        """Run fn() under a deterministic step budget: line events of wiring_runtime.py are counted and the call is
+        aborted when they exceed STEP_BUDGET ("looping" becomes an observation, with no thread left spinning and no
+        wall clock involved).  Returns ('ok', value) | ('raise', exc) | ('hang', None)."""
+        target = self.R.__file__
+        count = [0]
+
+        def local(frame, event, arg):
+            if event == "line":
+                count[0] += 1
+                if count[0] > STEP_BUDGET:
+                    raise StepBudget()
+            return local
+
+        def glob(frame, event, arg):
+            return local if frame.f_code.co_filename == target else None
+        old = sys.gettrace()
+        sys.settrace(glob)
+        try:
+            return "ok", fn()
+        except StepBudget:
+            return "hang", None
+        except Exception as e:
+            return "raise", e
+        finally:
+            sys.settrace(old)
+
     def run_impl(self, case):
         W, R = self.W, self.R
         d = W.WiringDiagram()
@@ -356,8 +391,8 @@ class C16(Prop):
                 elif op == "exec":
                     del calls[:]
                     enforce = t[1] == "1"
-                    kind, val = call_guarded(lambda: ex.execute({k: dict(v) for k, v in ext.items()} or None,
-                                                                enforce_static_checks=enforce), timeout=10.0)
+                    kind, val = self._bounded(lambda: ex.execute({k: dict(v) for k, v in ext.items()} or None,
+                                                                 enforce_static_checks=enforce))
                     cs = list(calls)
                     x = {"calls": cs, "enforce": enforce}
                     cstr = "[" + ";".join(f"{n}({self._show_tvs(s)})" for n, s in cs) + "]"
@@ -545,7 +580,7 @@ class C16(Prop):
             if c > 1:
                 V("each_module_once", f"module {m} invoked once", c, idx)
         if st == "hang":
-            V("raises_instead_of_looping", "execute returns or raises", "no return within 10 s", idx)
+            V("raises_instead_of_looping", "execute returns or raises", f"still running after {STEP_BUDGET} source lines", idx)
             return
         if st == "ok":
             order, recs = x["order"], x["mods"]
